@@ -822,4 +822,41 @@ example : (revert (run (Db.empty.set (0, 0) [(1, 10), (2, 20)])
       [.get 0 0 1, .forceWrite 0 0 1, .get 0 0 2, .set 0 0 2 7])).map
         (fun t' => lookupIn t'.nodes 0 0 2) = some (some (TV.readOnly (some 20))) := by decide
 
+/-- `revert_reads_back_base`: database-level reading of the revert clause. For every track
+satisfying the invariant (so: every track reachable by the operations, `inv_run`), after a
+successful revert every substate that was not force-written reads back as the BASE database value
+— the failed transaction's writes are gone — except a blind write (`WriteOnly`, never read before
+written), which the real code turns into `Garbage` (reads as absent; known caveat, see report). -/
+theorem revert_reads_back_base (t t' : Track) (hr : revert t = some t') (hi : Inv t)
+    (n p k : Nat) (hout : ¬ InForce t.force n p k)
+    (hnw : ∀ w, lookupIn t.nodes n p k ≠ some (.writeOnly w)) :
+    eff t' n p k = t.db.get (n, p) k := by
+  have hdb : t'.db = t.db := by
+    simp only [revert] at hr
+    split at hr
+    · exact absurd hr (by simp)
+    · simp only [Option.some.injEq] at hr
+      rw [← hr]
+  unfold eff lookupTV
+  rw [revert_tracked_value t t' hr hi.nodup.outer n p k hout, hdb]
+  cases hg : IMap.get? t.nodes n with
+  | none => rfl
+  | some nd =>
+    simp only []
+    by_cases hnew : nd.isNew = true
+    · simp only [hnew, if_true]
+    · simp only [hnew, if_false]
+      cases hl : lookupIn t.nodes n p k with
+      | none => rfl
+      | some tv =>
+        exact revert_read_partial t.db n p k tv
+          (hi.coh n p k tv (by rw [← lookupIn_eq]; exact hl))
+          (fun w e => hnw w (by rw [hl, e]))
+
+/-- non-vacuity: `(0,0,2)` was read and overwritten with 7; after the revert it reads 20 again,
+while the force-written neighbour `(0,0,1)` exists -/
+example : (revert (run (Db.empty.set (0, 0) [(1, 10), (2, 20)])
+      [.get 0 0 1, .forceWrite 0 0 1, .get 0 0 2, .set 0 0 2 7])).map
+        (fun t' => eff t' 0 0 2) = some (some 20) := by decide
+
 end Radix.Track
